@@ -131,6 +131,39 @@ func c18Check(c *Ctx, dir string, cs c18Case) {
 	if !mv.Equal(L(want...)) {
 		rep.Disagreement(Disagreement{Kind: "corr", Name: "corr:C18.run_session", Input: cs, Impl: L(want...).String(), Expect: mv.String()})
 	}
+	// (5a) navigation spec on what the implementation showed: an array of texts (loaded entries + scratch line)
+	// with a cursor; editing changes the text under the cursor, previous/next only move the cursor
+	{
+		cur := L()
+		if cs.File != nil {
+			cur = L(Bytes(*cs.File))
+		}
+		for i, s := range cs.Sessions {
+			var data Val
+			if len(cur.L) == 0 {
+				data = Bytes("")
+			} else {
+				data = cur.L[0]
+			}
+			entries := c.Model.Call(1803, data)
+			ops := []Val{}
+			for _, o := range s.Ops {
+				if o.T == 0 {
+					ops = append(ops, L(I(0), Bytes(o.S)))
+				} else {
+					ops = append(ops, L(I(o.T)))
+				}
+			}
+			want := c.Model.Call(1804, L(entries, L(ops...)))
+			rep.SpecChecks++
+			if !want.Equal(Strs(obs[i].Seen)) {
+				rep.Disagreement(Disagreement{Kind: "spec", Name: "edits_come_back (navigation spec)", Input: cs,
+					Impl: Strs(obs[i].Seen).String(), Expect: want.String()})
+				break
+			}
+			cur = L(Bytes(obs[i].File))
+		}
+	}
 	// (5a) spec on the implementation's final file
 	final := ""
 	if len(obs) > 0 {
